@@ -34,11 +34,16 @@ CLAIMED = {
          "(numpy) are assumed interface contracts; their meaning, the exact culprit lists, the device-aware constructors and device construction are decided by the bounded stand-in with an "
          "independent oracle at, just inside and just outside each limit.", "DESIGN.md section 3 C12"),
  "C13": ("proof", "Deductive, refusal direction: iff-contracts of _validate_channel (undeclared / EOM-blocked / SLM-waiting) and _validate_add_protocol; the real block_if_measured wrapper "
-         "executed around _delay/_target (refused when measured, before any write); retarget refused on non-local channels and inside EOM. Remaining typestate rules are decided by the bounded stand-in.",
+         "executed around _delay/_target (refused when measured, before any write); retarget refused on non-local channels and inside EOM; enable_eom_mode / disable_eom_mode / add_eom_pulse "
+         "return only from / into the right EOM mode. Declaration / configuration typestate on plain and parametrized sequences (ids once, names once, XY exclusivity, inspection and "
+         "post-measurement refusals) is decided by the bounded stand-in (replay/c13p.py); one known finding (first use of a variable after measure()).",
          "DESIGN.md section 3 C13"),
- "C15": ("proof", "Deductive: _Schedule.enable_eom/disable_eom against the EOM block invariant: the block stores exactly the chosen setpoint and off-detuning, buffers of the configured "
-         "(clock-adjusted) length after the previous pulse's fall, detuned-delay buffer iff off-detuning != 0, closing at the channel end; _eom_buffer_time and BaseEOM.rise_time leaves. "
-         "Closest off-detuning option and square EOM pulses are decided by the bounded stand-in.", "DESIGN.md section 3 C15"),
+ "C15": ("proof", "Deductive: _Schedule.enable_eom/disable_eom against the EOM block invariant (the block stores exactly the chosen setpoint and off-detuning, buffers of the configured "
+         "clock-adjusted length after the previous pulse's fall, detuned-delay buffer iff off-detuning != 0, closing at the channel end); at the Sequence level, through the real decorator "
+         "chains: _process_eom_parameters (the off-detuning stored and validated is the chosen one), enable_eom_mode / modify_eom_setpoint / disable_eom_mode / add_eom_pulse (EOM pulses are "
+         "constant waveforms carrying exactly the block's setpoint whatever the clock stretching does; every phase-drift correction equals rate x window with the window fixed by the "
+         "specification: the buffer only / old rate up to the switch then new rate / since the last real pulse). The meaning of 'closest allowed option' (numpy argmin) and the emulated "
+         "populations are decided by the bounded stand-in (drift oracle: phase reference vs integral of the programmed off-detuning).", "DESIGN.md section 9.3 (C15 at the Sequence level)"),
  "C16": ("proof", "Deductive (integer / algebraic core): Waveform.__init__, _check_index and _check_slice against Python's own slice semantics, durations of Constant/Ramp/"
          "Blackman and the Composite sum (loop invariant), Constant/Ramp samples (first/last/within end points; the automatic division-safety obligation finds the duration-1 ramp), "
          "change_duration and scaling of Constant/Ramp, Pulse.__init__ (equal lengths, non-negative amplitude, phases mod 2pi), Pulse.ConstantPulse, is_detuned_delay. "
